@@ -234,13 +234,25 @@ fn c02_q_formula_value() {
 #[kani::proof]
 fn c02_q_label_sst() {
     let r: [u8; 10] = kani::any();
-    // 3-entry table; entry lengths symbolic in 0..=2 (content irrelevant: the cell must hold a clone)
+    // 3-entry table; entry lengths symbolic in 0..=2, characters symbolic printable ASCII including the space
+    // (a whitespace-only string is still a non-empty cell)
     let l0: usize = kani::any();
     let l1: usize = kani::any();
     let l2: usize = kani::any();
     kani::assume(l0 <= 2 && l1 <= 2 && l2 <= 2);
-    let src = "ab";
-    let strings = [String::from(&src[..l0]), String::from(&src[..l1]), String::from(&src[..l2])];
+    let ch: [u8; 2] = kani::any();
+    kani::assume(ch[0] >= 0x20 && ch[0] < 0x7F && ch[1] >= 0x20 && ch[1] < 0x7F);
+    let mk = |l: usize| {
+        let mut s = String::with_capacity(2);
+        if l >= 1 {
+            s.push(ch[0] as char);
+        }
+        if l >= 2 {
+            s.push(ch[1] as char);
+        }
+        s
+    };
+    let strings = [mk(l0), mk(l1), mk(l2)];
     let lens = [l0, l1, l2];
     let row = u16::from_le_bytes([r[0], r[1]]) as u32;
     let col = u16::from_le_bytes([r[2], r[3]]) as u32;
@@ -253,7 +265,7 @@ fn c02_q_label_sst() {
                 match c.get_value() {
                     Data::String(s) => {
                         assert!(s.len() == lens[i], "LABELSST resolves index i");
-                        assert!(s.as_bytes()[0] == b'a');
+                        assert!(s.as_bytes()[0] == ch[0], "LABELSST text is the table entry");
                     }
                     _ => assert!(false, "LABELSST not a string"),
                 }
